@@ -360,6 +360,73 @@ def run(ctx: Ctx):
                     if not ok:
                         ctx.fail("P:C16:identities", {"cls": cls.__name__, "start_only": repr(dt), "fold": fold}, obs, [repr(dt), repr(dt.utcoffset())])
 
+    # ------------------------------------------------------------- start + DURATION inside a skipped hour
+    # "end == start + DURATION and end - start == duration whenever DURATION is set": the sum is the wall-clock sum in the
+    # zone of the start, also when that wall time does not exist (no detour through UTC moves it)
+    for tzobj, wall, durs in ((ZoneInfo("Europe/Berlin"), datetime(2021, 3, 28, 1, 30), (1, 0.75, 25, 3)), (ZoneInfo("America/New_York"), datetime(2024, 3, 10, 1, 15), (1, 1.5, 24)),
+                              (ZoneInfo("Australia/Lord_Howe"), datetime(2024, 10, 6, 1, 45), (0.25, 0.5)), (_dtz.gettz("Europe/Berlin"), datetime(2024, 3, 31, 1, 0), (1.5,)),
+                              (ZoneInfo("Europe/Berlin"), datetime(2024, 3, 30, 2, 30), (24,)), (ZoneInfo("Europe/Berlin"), datetime(2024, 10, 27, 1, 30), (1, 2))):
+        for h in durs:
+            for cls in (Event, Todo):
+                for route in ("api", "text", "add"):
+                    st, du = wall.replace(tzinfo=tzobj), timedelta(hours=h)
+                    c = cls()
+                    if route == "add":
+                        c.add("dtstart", st)
+                        c.add("duration", du)
+                    else:
+                        c.start = st
+                        c.DURATION = du
+                    if route == "text":
+                        if not isinstance(tzobj, ZoneInfo):
+                            continue
+                        c = cls.from_ical(c.to_ical())
+                    ctx.evaluations += 1
+                    ctx.case(("gap", repr(tzobj), wall.isoformat(), h, cls.__name__, route), True)
+                    try:
+                        end, dur = c.end, c.duration
+                        ok = end.replace(tzinfo=None) == wall + du and end.tzinfo is not None and dur == du and end == c.start + c.DURATION and end - c.start == dur
+                        obs = [repr(end), repr(dur)]
+                    except Exception as e:   # noqa: BLE001
+                        ok, obs = False, type(e).__name__
+                    if not ok:
+                        ctx.fail("P:C16:identities", {"cls": cls.__name__, "start": repr(st), "DURATION": repr(du), "route": route}, obs, [repr(wall + du), repr(du)])
+
+    # ------------------------------------------------------------- the end property of the OTHER kind is not this kind's end
+    # a VTODO that carries DTEND (a VEVENT that carries DUE) -- parsed, added, or copied by Todo(event) / Event(todo) -- has
+    # "only a start" (or start + DURATION)
+    for cls, foreign in ((Todo, "DTEND"), (Event, "DUE")):
+        for sv, fv in ((datetime(2024, 10, 11, 10, 20), datetime(2024, 10, 11, 12, 0)), (date(2024, 10, 11), date(2024, 10, 14)),
+                       (datetime(2024, 10, 11, 10, 20, tzinfo=UTC), datetime(2024, 10, 11, 9, 0, tzinfo=UTC))):
+            for with_dur in (False, True):
+                for route in ("text", "add", "copy"):
+                    du = timedelta(days=2) if with_dur else None
+                    if route == "copy":
+                        other = (Event if cls is Todo else Todo)()
+                        other.start = sv
+                        other.end = fv
+                        c = cls(other)
+                    else:
+                        c = cls()
+                        c.add("dtstart", sv)
+                        c.add(foreign, fv)
+                    if du is not None:
+                        c.add("duration", du)
+                    if route == "text":
+                        c = cls.from_ical(c.to_ical())
+                    ctx.evaluations += 1
+                    ctx.case(("foreign-end", cls.__name__, repr(sv), with_dur, route), True)
+                    want_end = sv + du if du is not None else (sv + timedelta(days=1) if type(sv) is date else sv)
+                    want_dur = du if du is not None else (timedelta(days=1) if type(sv) is date else timedelta(0))
+                    try:
+                        obs = [repr(c.start), repr(c.end), repr(c.duration)]
+                        ok = c.start == sv and c.end == want_end and c.duration == want_dur
+                    except Exception as e:   # noqa: BLE001
+                        ok, obs = False, type(e).__name__
+                    if not ok:
+                        ctx.fail("P:C16:observables", {"cls": cls.__name__, "foreign": foreign, "start": repr(sv), "DURATION": repr(du), "route": route},
+                                 obs, [repr(sv), repr(want_end), repr(want_dur)])
+
     # ------------------------------------------------------------- subclasses of date / datetime / timedelta; sub-second durations
     class _D(date):
         pass
